@@ -4,7 +4,9 @@ import (
 	"context"
 	"errors"
 
+	"filippo.io/edwards25519"
 	p2pcrypto "github.com/libp2p/go-libp2p/core/crypto"
+	cryptopb "github.com/libp2p/go-libp2p/core/crypto/pb"
 	"go.uber.org/zap"
 	"golang.org/x/crypto/nacl/box"
 	"google.golang.org/protobuf/proto"
@@ -109,6 +111,12 @@ func (hc *handshakeContext) receiveRequesterAuthenticate() error {
 		return errcode.ErrCode_ErrDeserialization.Wrap(err)
 	}
 
+	// a key of small order has no private half: anybody can produce a
+	// signature that verifies under it
+	if err := checkAccountKeyOrder(hc.peerAccountID); err != nil {
+		return errcode.ErrCode_ErrCryptoSignatureVerification.Wrap(err)
+	}
+
 	// Verify proof (shared_a_b signed by peer's AccountID)
 	valid, err := hc.peerAccountID.Verify(
 		hc.sharedEphemeral[:],
@@ -173,6 +181,30 @@ func (hc *handshakeContext) receiveRequesterAcknowledge() error {
 
 	if !acknowledge.Success {
 		return errcode.ErrCode_ErrInvalidInput
+	}
+
+	return nil
+}
+
+// checkAccountKeyOrder refuses the Ed25519 public keys of small order (the
+// neutral element and the points of order 2, 4 and 8)
+func checkAccountKeyOrder(pk p2pcrypto.PubKey) error {
+	if pk.Type() != cryptopb.KeyType_Ed25519 {
+		return nil
+	}
+
+	raw, err := pk.Raw()
+	if err != nil {
+		return err
+	}
+
+	point, err := new(edwards25519.Point).SetBytes(raw)
+	if err != nil {
+		return err
+	}
+
+	if new(edwards25519.Point).MultByCofactor(point).Equal(edwards25519.NewIdentityPoint()) == 1 {
+		return errors.New("account key has a small order")
 	}
 
 	return nil
